@@ -31,6 +31,7 @@ QUICK = [
     _c('ext_transport', 'ext_transport', dict(T=3)),
     _c('caps_timeseries', 'caps_ts', dict(T=3)),
     _c('window_storage', 'contract_storage', dict(T=4, win_s=(1, 3), win_c=(0, 3))),
+    _c('window_last_step_only', 'contract_storage', dict(T=4, win_s=(3, 4), win_c=(0, 1))),
     _c('window_between_grid_points', 'contract_storage', dict(T=4, win_s=(0.5, 2.5), win_c=(1, 3.25), wacc=True)),
     _c('caps_interval_data', 'caps_dict', dict(T=4, wacc=True)),
     _c('mixed_discount_rates', 'mixed_wacc', dict(T=3, freq='d', unit='d')),
